@@ -17,6 +17,9 @@ struct Cfg {
     double abstol = 1e-8, reltol = 1e-8;
     // general
     int threads = 1, strat = 0, cc = 1, cg = 1, exact = 1, verbose = 0, paraview = 0;
+    // grid files through the solver: 0 none, 1 write (names set), 2 load what a solver just wrote, 3 load missing files,
+    // 4 load with no names set, 5 write with no names set
+    int gridfile = 0;
     double tfactor = 1.0;
 
     static Cfg fromCase(const Case& c)
@@ -56,6 +59,7 @@ struct Cfg {
         k.tfactor    = c.d("tfactor", k.tfactor);
         k.verbose    = c.i("verbose", 0);
         k.paraview   = c.i("paraview", 0);
+        k.gridfile   = c.i("gridfile", 0);
         return k;
     }
     Problem problem() const
@@ -93,6 +97,20 @@ inline void applyOptions(GMGPolar& s, const Cfg& k)
     s.residualNormType(static_cast<ResidualNormType>(k.norm));
     s.absoluteTolerance(k.abstol);
     s.relativeTolerance(k.reltol);
+    s.write_grid_file(k.gridfile == 1 || k.gridfile == 5);
+    s.load_grid_file(k.gridfile == 2 || k.gridfile == 3 || k.gridfile == 4);
+    if (k.gridfile == 1 || k.gridfile == 2) {
+        s.file_grid_radii("solver_grid_radii.txt");
+        s.file_grid_angles("solver_grid_angles.txt");
+    }
+    else if (k.gridfile == 3) {
+        s.file_grid_radii("no_such_radii_file.txt");
+        s.file_grid_angles("no_such_angles_file.txt");
+    }
+    else {
+        s.file_grid_radii("");
+        s.file_grid_angles("");
+    }
 }
 
 // only the options whose value differs from the previous block, as a user who changes one thing and calls setup()/solve() again
@@ -155,6 +173,15 @@ inline std::unique_ptr<GMGPolar> makeSolver(const Cfg& k)
     if (k.exact)
         s->setSolution(std::move(p.exact));
     applyOptions(*s, k);
+    if (k.gridfile == 2) {
+        // the files to load are written by another solver object with the same options (write_grid_file), in the working directory
+        Cfg kw      = k;
+        kw.gridfile = 1;
+        Problem pw  = kw.problem();
+        GMGPolar w(std::move(pw.geo), std::move(pw.coef), std::move(pw.bc), std::move(pw.src));
+        applyOptions(w, kw);
+        w.setup();
+    }
     return s;
 }
 
